@@ -466,7 +466,7 @@ def merge_projections(arr):
         return arr
     if len(arr) == 1 or not has_none(arr[0]):
         return arr[0]
-    sparse_fa = np.copy(arr[0])
+    sparse_fa = list(arr[0])
     k = 1
     while k < len(arr):
         fa = arr[k]
